@@ -97,6 +97,9 @@ ASSUMPTIONS = [
     "the process had already exited",
     "between processExited and processEnded either reading of 'the process ends' is accepted: a "
     "PROGRESS=100 delivered in that window may or may not produce success",
+    "the fake Tor leaves in its DataDirectory what a real one does: regular files, a sub-directory with files, the "
+    "bound unix control socket (plus a second socket in the sub-directory, a FIFO and a symlink); all are still "
+    "there when the process ends",
     "tempdir: must exist while the process has not exited; must be gone once processEnded was delivered "
     "(checked at the end of the case, before any shutdown trigger runs); nothing is demanded when the "
     "process never ended; the reactor's 'shutdown' triggers are fired at the end only to check that a "
@@ -528,6 +531,7 @@ class _World(object):
                 for nm in ("state", os.path.join("keys", "secret_id_key")):
                     with open(os.path.join(d0, nm), "w") as f:
                         f.write("x\n")
+                _special_entries(d0)
 
     def _creator(self):
         d = defer.Deferred()
@@ -744,6 +748,29 @@ def _firing_module(tb, fail=None):
         if os.sep + "twisted" + os.sep not in fn:
             return os.path.basename(fn)
     return None
+
+
+def _special_entries(datadir):
+    """What else a running Tor leaves in its DataDirectory: the bound control socket (launch() without
+    control_port says ControlPort unix:<datadir>/control.socket), and for good measure a FIFO and a symlink.
+    Only file-system nodes: the socket is bound and closed at once, nothing listens or connects."""
+    import socket
+    old = os.getcwd()
+    try:
+        os.chdir(datadir)               # AF_UNIX paths are limited to ~107 bytes: bind a relative name
+        for name in ("control.socket", os.path.join("keys", "sock2")):
+            if not os.path.lexists(name):
+                sk = socket.socket(socket.AF_UNIX, socket.SOCK_STREAM)
+                try:
+                    sk.bind(name)
+                finally:
+                    sk.close()
+        if not os.path.lexists("notify.fifo"):
+            os.mkfifo("notify.fifo", 0o600)
+        if not os.path.lexists("state.link"):
+            os.symlink("state", "state.link")
+    finally:
+        os.chdir(old)
 
 
 class _Sink(object):
@@ -1827,6 +1854,18 @@ MUTANTS = [
     # --- every listener line starts another connection attempt, also while one is pending
     ("connect-attempts-not-serialised", "txtorcon/controller.py",
      "            self.attempted_connect = True\n", "            pass\n"),
+    # --- the tree remover skips what is neither directory, regular file nor symlink (tor's control socket)
+    ("tree-remover-skips-sockets-and-fifos", "txtorcon/util.py",
+     "            shutil.rmtree(f, ignore_errors=True)\n",
+     "            for root, dirs, files in os.walk(f, topdown=False):\n"
+     "                for n in files:\n"
+     "                    p = os.path.join(root, n)\n"
+     "                    if os.path.isfile(p) or os.path.islink(p):\n"
+     "                        os.unlink(p)\n"
+     "                try:\n"
+     "                    os.rmdir(root)\n"
+     "                except OSError:\n"
+     "                    pass\n"),
     ("timeout-fires-success-path", "txtorcon/controller.py",
      "        fail = Failure(RuntimeError(\"timeout while launching Tor\"))\n        self._maybe_notify_connected(fail)\n",
      "        self._maybe_notify_connected(self)\n"),
